@@ -152,9 +152,16 @@ def print_project(prj):
                 else:
                     out.append('import %s' % o)
             out.append('')
+        if mod != 'ma' and style.get('noise'):
+            # the factory's / class's names in a comment and in a string statement of the client
+            out.append('# create C here; C.create, create_all')
+            out.append('"create C create"')
+            out.append('')
         if mod == 'ma':
-            for c in prj['classes']:
-                out.append('class %s(object):' % c['name'])
+            bases = {c.get('base') for c in prj['classes']}
+            ordered = [c for c in prj['classes'] if c['name'] in bases] + [c for c in prj['classes'] if c['name'] not in bases]
+            for c in ordered:
+                out.append('class %s(%s):' % (c['name'], c.get('base') or 'object'))
                 if style.get('docstring'):
                     out.append('    """a class"""')
                 for d in c['methods']:
@@ -299,10 +306,15 @@ class Parser:
                             continue
                         else:
                             raise Unsupported(ast.dump(b))
-                    classes.append({'name': n.name, 'methods': ms})
+                    base = None
+                    if n.bases and isinstance(n.bases[0], ast.Name) and n.bases[0].id != 'object':
+                        base = n.bases[0].id
+                    classes.append({'name': n.name, 'base': base, 'methods': ms})
                 elif isinstance(n, ast.FunctionDef):
                     funcs.append(self.fdef(n))
                     where[n.name] = mod
+                elif isinstance(n, ast.Expr) and isinstance(n.value, ast.Constant) and isinstance(n.value.value, str):
+                    continue             # a string statement (docstring-like)
                 elif mod == 'main':
                     s = self.stmt(n)
                     if s is not None and s != ('pass',):
@@ -364,7 +376,8 @@ def erase_project(prj):
     def em(d):
         body = d['body'] if d['body'][0] == 'forward' else ('code', erase_b(d['body'][1]))
         return {'name': d['name'], 'static': d['static'], 'params': list(d['params']), 'body': body}
-    return {'classes': [{'name': c['name'], 'methods': [em(d) for d in c['methods']]} for c in prj['classes']],
+    return {'classes': [{'name': c['name'], 'base': c.get('base'), 'methods': [em(d) for d in c['methods']]}
+                        for c in prj['classes']],
             'funcs': [em(d) for d in prj['funcs']], 'main': erase_b(prj['main'])}
 
 
@@ -446,8 +459,9 @@ def g_mdef(d, I):
 
 
 def g_prog(prj, I):
-    cs = ['{| c_name := %s; c_methods := %s |}' % (I(c['name']), g_list([g_mdef(d, I) for d in c['methods']]))
-          for c in prj['classes']]
+    cs = ['{| c_name := %s; c_base := %s; c_methods := %s |}' % (
+        I(c['name']), ('(Some %s)' % I(c['base'])) if c.get('base') else 'None',
+        g_list([g_mdef(d, I) for d in c['methods']])) for c in prj['classes']]
     return '{| p_classes := %s; p_funcs := %s; p_main := %s |}' % (
         g_list(cs), g_list([g_mdef(d, I) for d in prj['funcs']]), g_block(prj['main'], I))
 
@@ -468,9 +482,10 @@ class Gen:
     """One project.  opts: hazard in {None, 'aug-precedence', 'effectful-primary', 'comment', 'semicolon',
     'chained', 'name-clash'}; exactly one statement carrying the hazard is planted."""
 
-    def __init__(self, rng, hazard=None):
+    def __init__(self, rng, hazard=None, inherit=None):
         self.rng = rng
         self.hazard = hazard
+        self.inherit = inherit          # None | 'clash' (base class defines get_x / set_x) | 'plain'
         self.planted = False
         self.counts = {}
         self.fld = 'x'
@@ -851,6 +866,23 @@ class Gen:
             self.defining = 'reset'
             self.cmethods['reset'] = {'n': 0, 'ret': 'none'}
             self.cnt('shape:defining-method-is-not-init')
+        base = None
+        if self.inherit:
+            bm = []
+            which = r.choice(['get', 'set', 'both']) if self.inherit == 'clash' else 'none'
+            if which in ('get', 'both'):
+                bm.append({'name': 'get_x', 'static': False, 'params': ['self'],
+                           'body': ('code', [('return', ('bin', '*', ('attr', False, ('var', 'self'), 'x'), ('int', 10)))])})
+                self.cmethods['get_x'] = {'n': 0, 'ret': 'int'}
+            if which in ('set', 'both'):
+                bm.append({'name': 'set_x', 'static': False, 'params': ['self', 'n'],
+                           'body': ('code', [('write', False, ('var', 'self'), 'x', ('bin', '//', ('var', 'n'), ('int', 2)), 'plain')])})
+                self.cmethods['set_x'] = {'n': 1, 'ret': 'none'}
+            bm.append({'name': 'scaled', 'static': False, 'params': ['self'],
+                       'body': ('code', [('return', ('bin', '+', ('bin', '*', ('attr', False, ('var', 'self'), 'x'), ('int', 3)), ('int', 1)))])})
+            self.cmethods['scaled'] = {'n': 0, 'ret': 'int'}
+            base = {'name': 'B', 'base': None, 'methods': bm}
+            self.cnt('shape:inheritance:' + which)
         for nm in names:
             methods.append(self.method(nm, r.randint(0, 1), r.choice(['int', 'int', 'none'])))
         if self.hazard == 'name-clash':
@@ -861,18 +893,30 @@ class Gen:
         cm = ([early] if early else []) + [init] + methods
         if early and r.random() < 0.5:
             cm = [early, methods[0], init] + methods[1:] if methods else cm
-        classes = [{'name': 'C', 'methods': cm}]
+        classes = [{'name': 'C', 'base': 'B' if base else None, 'methods': cm}]
         if self.has_d:
             dinit = [('write', False, ('var', 'self'), 'c', ('new', 'C', [('var', 'v')]), 'plain')]
             if self.d_has_x:
                 dinit.append(('write', False, ('var', 'self'), 'x', ('bin', '+', ('var', 'v'), ('int', 10)), 'plain'))
-            classes.append({'name': 'D', 'methods': [{'name': '__init__', 'static': False, 'params': ['self', 'v'],
-                                                      'body': ('code', dinit)}]})
+            dm = [{'name': '__init__', 'static': False, 'params': ['self', 'v'], 'body': ('code', dinit)}]
+            self.d_create = r.random() < 0.5
+            if self.d_create:
+                # an unrelated method that is spelled like the factory
+                dm.append({'name': 'create', 'static': False, 'params': ['self', 'n'],
+                           'body': ('code', [('return', ('bin', '+', ('attr', True, ('attr', False, ('var', 'self'), 'c'), 'x'), ('var', 'n')))])})
+                self.cnt('shape:unrelated-method-named-like-the-factory')
+            classes.append({'name': 'D', 'base': None, 'methods': dm})
+        if base:
+            classes.append(base)
         # functions
         nf = r.randint(1, 3)
+        fnames = ['f0', 'f1', 'f2']
+        if r.random() < 0.4:
+            fnames[r.randint(0, 2)] = r.choice(['create_f', 'recreate', 'C_create'])
+            self.cnt('shape:function-name-contains-factory-or-class-name')
         for i in range(nf):
             mod = 'ma' if (i == 0 and r.random() < 0.3) else 'mb'
-            funcs.append(self.function('f%d' % i, mod))
+            funcs.append(self.function(fnames[i], mod))
         # main
         sc = {'vars': {}, 'callable_methods': set(self.cmethods), 'callable_funcs': set(self.fsig)}
         main = [('assign', 'a', ('new', 'C', [('int', r.randint(1, 5))]))]
@@ -893,11 +937,20 @@ class Gen:
                 main.append(('print', ('attr', True, call, 'x')))
             else:
                 main.append(('expr', call))
+        if self.has_d and getattr(self, 'd_create', False):
+            main.append(('assign', 'd', ('new', 'D', [('int', r.randint(1, 5))])))
+            main.append(('print', ('meth', ('var', 'd'), 'create', [('int', r.randint(0, 4))])))
+        if self.inherit:
+            for m in ('get_x', 'scaled'):
+                if m in self.cmethods:
+                    main.append(('print', ('meth', ('var', 'a'), m, [])))
+            if 'set_x' in self.cmethods:
+                main.append(('expr', ('meth', ('var', 'a'), 'set_x', [('int', r.randint(4, 30))])))
         main.append(('print', ('attr', True, ('var', 'a'), 'x')))
         style = {'mb': r.choice(['from', 'mod']), 'main': r.choice(['from', 'mod']), 'docstring': r.random() < 0.2,
-                 'kw_new': r.random() < 0.3}
+                 'kw_new': r.random() < 0.3, 'noise': r.random() < 0.5}
         return {'classes': classes, 'funcs': funcs, 'main': main, 'where': dict(self.where), 'style': style,
-                'defining': self.defining, 'hazard': self.hazard if self.planted else None}
+                'defining': self.defining, 'hazard': self.hazard if self.planted else None, 'inherit': self.inherit}
 
 
 # ----------------------------------------------------------------------------------------- UseFunction scenarios
@@ -1060,7 +1113,11 @@ def retag_project(prj, fld, tags_by_mod):
         return dict(d, body=('code', [S(c, it) for c in d['body'][1]]))
     its = {m: iter(v) for m, v in tags_by_mod.items()}
     new = dict(prj)
-    new['classes'] = [dict(c, methods=[M(d, its['ma']) for d in c['methods']]) for c in prj['classes']]
+    # same order as the printer: base classes first
+    bases = {c.get('base') for c in prj['classes']}
+    ordered = [c for c in prj['classes'] if c['name'] in bases] + [c for c in prj['classes'] if c['name'] not in bases]
+    done = {c['name']: dict(c, methods=[M(d, its['ma']) for d in c['methods']]) for c in ordered}
+    new['classes'] = [done[c['name']] for c in prj['classes']]
     fs = {}
     for mod in ('ma', 'mb', 'main'):
         for d in prj['funcs']:
@@ -1072,3 +1129,101 @@ def retag_project(prj, fld, tags_by_mod):
         if next(it, None) is not None:
             raise ValueError('more .%s occurrences in %s than attribute nodes' % (fld, m))
     return new, changed[0]
+
+
+# ----------------------------------------------------------------------------------------- nesting scenarios
+def nest_project(rng):
+    """A project (text only, execution oracle only) whose functions live at nesting depth 1-3 below the module, each
+    followed by further members of its enclosing definitions: a method of a class nested in a class, a function
+    nested in a method, a function nested in a function, plain functions (one takes an object as first parameter
+    and has a local spelled like a field of that object), a module-level variable.
+    Returns (sources, targets) with targets = [(module, kind, name, must_be_method_local)] ."""
+    r = rng
+    K = [r.randint(1, 5) for _ in range(8)]
+    fld = r.choice(['x', 'val'])
+    loc_plain = r.choice([fld, 't'])
+    inner_cls, outer_cls = r.choice([('Entry', 'Registry'), ('Cell', 'Grid')])
+    n_after_inner = r.randint(0, 2)
+    n_after_deep = r.randint(1, 2)
+    L = []
+    L.append('class %s(object):' % outer_cls)
+    L.append('')
+    L.append('    class %s(object):' % inner_cls)
+    L.append('')
+    L.append('        def __init__(self, a, b):')
+    L.append('            self.%s = a' % fld)
+    L.append('            self.b = b')
+    L.append('')
+    L.append('        def score(self, w):')
+    L.append('            bonus = self.b + %d' % K[0])
+    L.append('            return self.%s * w + bonus' % fld)
+    for i in range(n_after_inner):
+        L.append('')
+        L.append('        def extra%d(self):' % i)
+        L.append('            return self.b * %d' % K[1 + i])
+    L.append('')
+    L.append('    def __init__(self):')
+    L.append('        self.items = []')
+    L.append('')
+    L.append('    def add(self, a, b):')
+    L.append('        self.items.append(%s.%s(a, b))' % (outer_cls, inner_cls))
+    L.append('')
+    L.append('    def deep(self, n):')
+    L.append('        def helper(v, k):')
+    L.append('            r = v * k + %d' % K[3])
+    L.append('            return r + 1')
+    L.append('        s = helper(n, %d)' % K[4])
+    L.append('        return s + helper(s, 2)')
+    for i in range(n_after_deep):
+        L.append('')
+        L.append('    def after%d(self, w):' % i)
+        L.append('        tot = 0')
+        L.append('        for e in self.items:')
+        L.append('            tot = tot + e.score(w) + %d' % i)
+        L.append('        return tot')
+    L.append('')
+    L.append('')
+    L.append('def top(n, q):')
+    L.append('    def inner(v):')
+    L.append('        z = v + %d' % K[5])
+    L.append('        return z * 2')
+    L.append('    u = inner(n)')
+    L.append('    return u + inner(q)')
+    L.append('')
+    L.append('')
+    L.append('def plain(e, step):')
+    L.append('    %s = e.%s + step' % (loc_plain, fld))
+    L.append('    return %s * %d' % (loc_plain, K[6]))
+    L.append('')
+    L.append('')
+    L.append('def solo(n):')
+    L.append('    acc = n + %d' % K[7])
+    L.append('    return acc * acc')
+    L.append('')
+    L.append('')
+    L.append('LIMIT = %d' % (K[2] + 10))
+    ma = '\n'.join(L) + '\n'
+    style = r.choice(['from', 'mod'])
+    q = 'ma.' if style == 'mod' else ''
+    M = ['import ma' if style == 'mod' else 'from ma import %s, top, plain, solo, LIMIT' % outer_cls, '']
+    M.append('g = %s%s()' % (q, outer_cls))
+    M.append('g.add(%d, %d)' % (K[0], K[1]))
+    M.append('g.add(%d, %d)' % (K[2], K[3]))
+    M.append('print(g.deep(%d))' % K[4])
+    for i in range(n_after_deep):
+        M.append('print(g.after%d(%d))' % (i, K[5]))
+    M.append('e = g.items[0]')
+    M.append('print(e.score(%d), e.%s, e.b)' % (K[6], fld))
+    for i in range(n_after_inner):
+        M.append('print(e.extra%d())' % i)
+    M.append('print(%stop(%d, %d))' % (q, K[1], K[2]))
+    M.append('print(%splain(e, %d), e.%s)' % (q, K[3], fld))
+    M.append('print(%splain(e, %d), e.%s)' % (q, K[4], fld))
+    M.append('print(%ssolo(%d), %sLIMIT)' % (q, K[5], q))
+    srcs = {'ma': ma, 'main': '\n'.join(M) + '\n'}
+    funcs = ['score', 'helper', 'deep', 'inner', 'top', 'plain', 'solo', 'add'] + ['after%d' % i for i in range(n_after_deep)]
+    # (text that starts at the variable, is it a local of a method)
+    locs = [('bonus = self.b', True), ('r = v * k', False), ('z = v + ', False), ('%s = e.%s' % (loc_plain, fld), False),
+            ('acc = n + ', False), ('s = helper', True), ('tot = 0', True), ('n, q)', False), ('w):\n            bonus', False),
+            ('LIMIT = ', False)]
+    return srcs, funcs, locs
